@@ -1,6 +1,6 @@
 (* Edit/ProofsKids.v -- what the forest primitives do to the child-id list of every object
    (the bridge between the forest of the model and plain lists of ids). *)
-From PsdV Require Import Base.Prelude Edit.Model Edit.Inv Edit.Forest Edit.ProofsInv.
+From PsdV Require Import Base.Prelude Edit.Model Edit.Spec Edit.Inv Edit.Forest Edit.ProofsInv.
 Open Scope Z_scope.
 
 (* every node of the tree lists (by id) what L says *)
@@ -147,7 +147,6 @@ Proof.
   apply (cons_upd L L' g f Hag Hf). apply (cons_l_In L l); assumption.
 Qed.
 
-Definition updL (L : Z -> list Z) (g : Z) (v : list Z) : Z -> list Z := fun a => if a =? g then v else L a.
 
 (* ---------------------------------------------------------------- the two primitives *)
 Lemma map_tid_splice (ks : list tree) k (m : list tree) :
